@@ -159,10 +159,13 @@ def rule_b(prog, rep):
         if 'reset' not in tb[:i] or 'request' not in tb[:i] or tb.index('reset') > tb.index('request'):
             problems.append('votes are processed without reset -> request_votes before')
             break
-    lets = [nd for nd, a in crate.walk_fn(er) if nd.get('k') == 'let' and nd['pat'].get('name') == 'peers' and nd.get('init') is not None]
-    good_list = any(any('peer_nodes' in x for x in eb.origins(l['init'])) for l in lets)
+    # the candidate list: the local built from self.peers.peer_nodes() in this round (identified by provenance)
+    lets = [nd for nd, a in crate.walk_fn(er) if nd.get('k') == 'let' and nd['pat'].get('k') == 'bind' and nd.get('init') is not None and
+            any('peer_nodes' in x for x in eb.origins(nd['init']))]
+    ids = {l['pat'].get('id') for l in lets}
+    good_list = bool(lets)
     pc = crate.calls(er, lambda c: c == f'{EL}::process_peer_election_message')
-    if not good_list or not pc or not any(x.get('name') == 'peers' for x, _ in walk(pc[0][0]['args'][2])):
+    if not good_list or not pc or not any(x.get('k') == 'path' and x.get('id') in ids for x, _ in walk(pc[0][0]['args'][2])):
         problems.append('the candidate list handed to the vote counting is not rebuilt from self.peers.peer_nodes() in the round')
     if problems:
         rep.violation('C19.b', 'election_round', er.loc, '; '.join(sorted(set(problems))), key='C19.b/election_round/' + '|'.join(sorted(set(problems))))
@@ -202,27 +205,56 @@ def rule_d(prog, rep):
     crate = prog.crate(ORCH)
     f = crate.fn('config::quorum_sanity_check')
     b = Bindings(crate, f)
-    lets = {nd['pat'].get('name'): nd for nd, a in crate.walk_fn(f) if nd.get('k') == 'let' and nd['pat'].get('k') == 'bind'}
+    all_lets = [nd for nd, a in crate.walk_fn(f) if nd.get('k') == 'let' and nd['pat'].get('k') == 'bind' and nd.get('init')]
     problems = []
-    nc = lets.get('node_count', {}).get('init')
-    if not (nc and nc.get('k') == 'binary' and nc['op'] == 'Add' and nc['r'].get('k') == 'lit' and nc['r']['v']['v'] == 1 and
-            nc['l'].get('k') == 'call' and short(callee(nc['l'])) == 'len' and b.origins(nc['l']['args'][0]) == {'param(peers)'}):
+
+    def plus_one(e, pred):
+        return e.get('k') == 'binary' and e['op'] == 'Add' and e['r'].get('k') == 'lit' and e['r']['v']['v'] == 1 and pred(e['l'])
+
+    def is_local(e, let):
+        return let is not None and e.get('k') == 'path' and e.get('res') == 'local' and e.get('id') == let['pat'].get('id')
+    # locals are identified by what they are computed from, not by their names
+    nc_let = next((l for l in all_lets if plus_one(l['init'], lambda x: x.get('k') == 'call' and short(callee(x)) == 'len' and
+                                                    b.origins(x['args'][0]) == {'param(peers)'})), None)
+    if nc_let is None:
         problems.append('node_count is not peers.len() + 1')
-    rq = lets.get('recommended_min_quorum', {}).get('init')
-    okq = rq and rq.get('k') == 'binary' and rq['op'] == 'Add' and rq['r'].get('k') == 'lit' and rq['r']['v']['v'] == 1 and \
-        rq['l'].get('k') == 'binary' and rq['l']['op'] == 'Div' and rq['l']['r'].get('k') == 'lit' and rq['l']['r']['v']['v'] == 2 and \
-        rq['l']['l'].get('name') == 'node_count'
-    if not okq:
+    rq_let = next((l for l in all_lets if plus_one(l['init'], lambda x: x.get('k') == 'binary' and x['op'] == 'Div' and
+                                                    x['r'].get('k') == 'lit' and x['r']['v']['v'] == 2 and is_local(x['l'], nc_let))), None)
+    if rq_let is None:
         problems.append('default quorum is not node_count / 2 + 1')
-    q = lets.get('quorum', {}).get('init')
-    if not (q and q.get('k') == 'if' and q['cond'].get('k') == 'letcond' and any('recommended_min_quorum' in x or 'op(Add)' in x or x.startswith('op(') for x in b.origins(q.get('else')))):
-        qo = b.origins(q) if q else set()
-        if not (q and any(x == 'param(quorum)#Some.0' for x in qo)):
-            problems.append('quorum is not `configured value or the default`')
-    tooh = [nd for nd, a in crate.walk_fn(f) if nd.get('k') == 'if' and nd['cond'].get('k') == 'binary' and nd['cond']['op'] == 'Gt' and
-            nd['cond']['l'].get('name') == 'quorum' and nd['cond']['r'].get('name') == 'node_count']
+
+    def is_quorum_init(q):
+        if q.get('k') == 'if' and q['cond'].get('k') == 'letcond' and 'else' in q:
+            return b.origins(q['then']) == {'param(quorum)#Some.0'} and is_local(b_strip(q['else']), rq_let)
+        if q.get('k') == 'call' and short(callee(q)) == 'unwrap_or' and len(q['args']) == 2:
+            return b.origins(q['args'][0]) == {'param(quorum)'} and is_local(b_strip(q['args'][1]), rq_let)
+        if q.get('k') == 'match' and len(q['arms']) == 2:
+            bodies = [b_strip(a['body']) for a in q['arms']]
+            return b.origins(q['scrut']) == {'param(quorum)'} and any(is_local(x, rq_let) for x in bodies) and \
+                any(b.origins(x) == {'param(quorum)#Some.0'} for x in bodies)
+        return False
+
+    def b_strip(e):
+        while isinstance(e, dict) and e.get('k') == 'block' and not e.get('stmts') and 'tail' in e:
+            e = e['tail']
+        return e
+    q_let = next((l for l in all_lets if is_quorum_init(l['init'])), None)
+    if q_let is None:
+        problems.append('quorum is not `configured value or the default`')
+
+    def too_high(c):
+        c = b_strip(c)
+        if c.get('k') != 'binary':
+            return False
+        return (c['op'] == 'Gt' and is_local(c['l'], q_let) and is_local(c['r'], nc_let)) or \
+            (c['op'] == 'Lt' and is_local(c['l'], nc_let) and is_local(c['r'], q_let))
+    tooh = [nd for nd, a in crate.walk_fn(f) if nd.get('k') == 'if' and too_high(nd['cond'])]
     if not tooh or not any(x.get('k') == 'return' for x, _ in walk(tooh[0]['then'])):
         problems.append('quorum > node_count is not rejected')
+    oks = [nd for nd, a in crate.walk_fn(f) if nd.get('k') == 'call' and (ctor_name(nd) or '').endswith('Ok') and nd['args'] and
+           b_strip(nd['args'][0]).get('k') == 'tuple']
+    if not oks or not all(is_local(b_strip(o['args'][0])['elems'][0], q_let) for o in oks):
+        problems.append('the returned quorum is not the checked one')
     if problems:
         rep.violation('C19.d', 'quorum_sanity_check', f.loc, '; '.join(problems), key='C19.d/' + '|'.join(problems))
     else:
